@@ -43,7 +43,7 @@ def curStep (s : CurSt) (line : String) : CurSt × String :=
     | none => (s, "bad-tree")
   | ["cfirst"] => let r := first d fuel s.tree; ({ s with st := r.1 }, itemStr r.2)
   | ["clast"] => let r := last d fuel s.tree; ({ s with st := r.1 }, itemStr r.2)
-  | ["cnext"] => let r := next d fuel s.st; ({ s with st := r.1 }, itemStr r.2)
+  | ["cnext"] => let r := nextPub d fuel s.tree s.st; ({ s with st := r.1 }, itemStr r.2)
   | ["cprev"] => let r := prev d fuel s.tree s.st; ({ s with st := r.1 }, itemStr r.2)
   | ["cseek", k] => let r := seek d fuel s.tree (unhex k); ({ s with st := r.1 }, itemStr r.2)
   | _ => (s, "bad-op")
